@@ -47,6 +47,9 @@ func (f *PrincToString) Call(s *slip.Scope, args slip.List, depth int) (result s
 	p.Readably = false
 
 	obj := args[0]
+	if ss, ok := obj.(slip.String); ok {
+		return ss
+	}
 	var b []byte
 	if sa, ok := obj.(slip.ScopedAppender); ok {
 		b = sa.ScopedAppend(b, s, &p, 0)
